@@ -613,65 +613,87 @@ def rbSetMode (rb : RB) (m : Nat) : RB :=
 def rdevSplit (rb : RB) (d : Nat) : RB :=
   { rb with rdevmajor := (devMajorN d : Nat), rdevminor := (devMinorN d : Nat) }
 
+/-- Size of the fixed header. -/
+def cpioHsz (newc : Bool) : Nat := if newc then newcr_header_size else odcr_header_size
+
+/-- The bidder / `find_newc_header`, `find_odc_header` tests: magic and digit-only header. -/
+def cpioMagicOk (newc : Bool) (h : List Nat) : Bool :=
+  if newc then (h.take 6 == [48, 55, 48, 55, 48, 49] && h.all fun c => (hexVal c).isSome)
+  else (h.take 6 == [48, 55, 48, 55, 48, 55] && h.all fun c => decide (48 ≤ c ∧ c ≤ 55))
+
+/-- One numeric header field: `atol16` (newc) or `atol8` (odc). -/
+def cpioNum (newc : Bool) (h : List Nat) (off sz : Nat) : Nat :=
+  if newc then cpioAtol16 (slice h off sz) 0 else cpioAtol8 (slice h off sz) 0
+
+/-- `header_newc`: the fields of the 110-byte header; (entry, namesize, filesize). -/
+def newcParse (h : List Nat) : RB × Nat × Nat :=
+  let num := cpioNum true h
+  let rb : RB := { ({} : RB) with
+    dev := makedev (num newcr_devmajor_offset newcr_devmajor_size) (num newcr_devminor_offset newcr_devminor_size)
+    ino := num newcr_ino_offset newcr_ino_size
+    uid := num newcr_uid_offset newcr_uid_size, gid := num newcr_gid_offset newcr_gid_size
+    nlink := num newcr_nlink_offset newcr_nlink_size
+    rdevmajor := num newcr_rdevmajor_offset newcr_rdevmajor_size
+    rdevminor := num newcr_rdevminor_offset newcr_rdevminor_size
+    mtime := some (num newcr_mtime_offset newcr_mtime_size) }
+  (rbSetMode rb (num newcr_mode_offset newcr_mode_size), num newcr_namesize_offset newcr_namesize_size,
+   num newcr_filesize_offset newcr_filesize_size)
+
+/-- `header_odc`: the fields of the 76-byte header. -/
+def odcParse (h : List Nat) : RB × Nat × Nat :=
+  let num := cpioNum false h
+  let rb : RB := { ({} : RB) with
+    dev := num odcr_dev_offset odcr_dev_size, ino := num odcr_ino_offset odcr_ino_size
+    uid := num odcr_uid_offset odcr_uid_size, gid := num odcr_gid_offset odcr_gid_size
+    nlink := num odcr_nlink_offset odcr_nlink_size
+    mtime := some (num odcr_mtime_offset odcr_mtime_size) }
+  let rb := rdevSplit rb (num odcr_rdev_offset odcr_rdev_size)
+  (rbSetMode rb (num odcr_mode_offset odcr_mode_size), num odcr_namesize_offset odcr_namesize_size,
+   num odcr_filesize_offset odcr_filesize_size)
+
+def cpioParse (newc : Bool) (h : List Nat) : RB × Nat × Nat := if newc then newcParse h else odcParse h
+
+/-- newc pads the name so that header + name is a multiple of 4 (the header is 110 = 2 mod 4). -/
+def cpioNamePad (newc : Bool) (namelen : Nat) : Nat := if newc then (2 + 4 - namelen % 4) % 4 else 0
+def cpioBodyPad (newc : Bool) (filesize : Nat) : Nat := if newc then pad4 filesize else 0
+
+theorem cpioHsz_pos (newc : Bool) : 0 < cpioHsz newc := by cases newc <;> decide
+
 /-- The cpio reader (odc and newc headers as written by the modelled writers). -/
 def cpioRead (partialRead newc : Bool) (bs : List Nat) (fmt : Nat) (tab : LinkTab) (acc : List RB) : ReadResult :=
-  let hsz := if newc then newcr_header_size else odcr_header_size
-  if bs.length < hsz then ⟨fmt, acc.reverse, .fatal, 0⟩ else
-  let h := bs.take hsz
-  let magicOk := if newc then (h.take 6 = [48, 55, 48, 55, 48, 49] ∧ h.all fun c => (hexVal c).isSome)
-                 else (h.take 6 = [48, 55, 48, 55, 48, 55] ∧ h.all fun c => 48 ≤ c ∧ c ≤ 55)
-  if !magicOk then ⟨fmt, acc.reverse, .unmodelled, 0⟩ else
+  if bs.length < cpioHsz newc then ⟨fmt, acc.reverse, .fatal, 0⟩ else
+  let h := bs.take (cpioHsz newc)
+  if !cpioMagicOk newc h then ⟨fmt, acc.reverse, .unmodelled, 0⟩ else
   let fmt := if newc then ARCHIVE_FORMAT_CPIO_SVR4_NOCRC else ARCHIVE_FORMAT_CPIO_POSIX
-  let num (off sz : Nat) : Nat := if newc then cpioAtol16 (slice h off sz) 0 else cpioAtol8 (slice h off sz) 0
-  let rb : RB := {}
-  let (rb, namelen, filesize) :=
-    if newc then
-      let rb := { rb with
-        dev := makedev (num newcr_devmajor_offset newcr_devmajor_size) (num newcr_devminor_offset newcr_devminor_size)
-        ino := num newcr_ino_offset newcr_ino_size
-        uid := num newcr_uid_offset newcr_uid_size, gid := num newcr_gid_offset newcr_gid_size
-        nlink := num newcr_nlink_offset newcr_nlink_size
-        rdevmajor := num newcr_rdevmajor_offset newcr_rdevmajor_size
-        rdevminor := num newcr_rdevminor_offset newcr_rdevminor_size
-        mtime := some (num newcr_mtime_offset newcr_mtime_size) }
-      (rbSetMode rb (num newcr_mode_offset newcr_mode_size), num newcr_namesize_offset newcr_namesize_size,
-       num newcr_filesize_offset newcr_filesize_size)
-    else
-      let rb := { rb with
-        dev := num odcr_dev_offset odcr_dev_size, ino := num odcr_ino_offset odcr_ino_size
-        uid := num odcr_uid_offset odcr_uid_size, gid := num odcr_gid_offset odcr_gid_size
-        nlink := num odcr_nlink_offset odcr_nlink_size
-        mtime := some (num odcr_mtime_offset odcr_mtime_size) }
-      let rb := rdevSplit rb (num odcr_rdev_offset odcr_rdev_size)
-      (rbSetMode rb (num odcr_mode_offset odcr_mode_size), num odcr_namesize_offset odcr_namesize_size,
-       num odcr_filesize_offset odcr_filesize_size)
-  let namepad := if newc then (2 + 4 - namelen % 4) % 4 else 0
-  let rest := bs.drop hsz
+  let p := cpioParse newc h
+  let namelen := p.2.1
+  let filesize := p.2.2
+  let namepad := cpioNamePad newc namelen
+  let rest := bs.drop (cpioHsz newc)
   if rest.length < namelen + namepad then ⟨fmt, acc.reverse, .fatal, 0⟩ else
-  let rb := { rb with path := cstr (rest.take namelen), size := some (filesize : Int) }
+  let rb := { p.1 with path := cstr (rest.take namelen), size := some (filesize : Int) }
   let rest := rest.drop (namelen + namepad)
-  let bodypad := if newc then pad4 filesize else 0
+  let bodypad := cpioBodyPad newc filesize
   -- symlink: the body is the target
   if rb.ftype = AE_IFLNK then
     if filesize > 1048576 ∨ rest.length < filesize then ⟨fmt, acc.reverse, .fatal, 0⟩ else
     let rb := { rb with sym := cstr (rest.take filesize) }
     let rest := rest.drop filesize
-    let (tab, rb) := recordHardlink tab rb
-    if rest.length < bodypad then ⟨fmt, ({ rb with bodySt := .fatal } :: acc).reverse, .fatal, 0⟩ else
-    if hsz + namelen + namepad + filesize + bodypad = 0 then ⟨fmt, acc.reverse, .fatal, 0⟩ else
-    cpioRead partialRead newc (rest.drop bodypad) fmt tab (rb :: acc)
-  else if namelen = 11 ∧ (cstr (bs.drop hsz |>.take namelen)) = trailerName then ⟨fmt, acc.reverse, .eof, 0⟩
+    let lr := recordHardlink tab rb
+    if rest.length < bodypad then ⟨fmt, ({ lr.2 with bodySt := .fatal } :: acc).reverse, .fatal, 0⟩ else
+    cpioRead partialRead newc (rest.drop bodypad) fmt lr.1 (lr.2 :: acc)
+  else if namelen = 11 ∧ rb.path = trailerName then ⟨fmt, acc.reverse, .eof, 0⟩
   else
-    let (tab, rb) := recordHardlink tab rb
-    if partialRead ∧ filesize > 1048576 then ⟨fmt, (rb :: acc).reverse, .ok, 0⟩ else
+    let lr := recordHardlink tab rb
+    if partialRead ∧ filesize > 1048576 then ⟨fmt, (lr.2 :: acc).reverse, .ok, 0⟩ else
     if rest.length < filesize + bodypad then
-      ⟨fmt, ({ rb with body := rest.take filesize, bodySt := .fatal } :: acc).reverse, .fatal, 0⟩
+      ⟨fmt, ({ lr.2 with body := rest.take filesize, bodySt := .fatal } :: acc).reverse, .fatal, 0⟩
     else
-      cpioRead partialRead newc (rest.drop (filesize + bodypad)) fmt tab ({ rb with body := rest.take filesize } :: acc)
+      cpioRead partialRead newc (rest.drop (filesize + bodypad)) fmt lr.1 ({ lr.2 with body := rest.take filesize } :: acc)
 termination_by bs.length
 decreasing_by
   all_goals simp only [List.length_drop]
-  all_goals (have : 0 < hsz := by simp only [hsz]; split <;> decide)
+  all_goals (have := cpioHsz_pos newc)
   all_goals omega
 
 /-- Format auto-detection restricted to what the three writers produce; `k` = tar `read_header`
